@@ -269,7 +269,7 @@ func raceOne(e *Enc, o *Obl, cfg *SolverCfg, base string) {
 		solver, res, out string
 		dt          float64
 	}
-	ctx, cancel := context.WithTimeout(context.Background(), time.Duration(cfg.TimeoutS+5)*time.Second)
+	ctx, cancel := context.WithCancel(context.Background())
 	defer cancel()
 	ch := make(chan ans, len(solvers))
 	for _, s := range solvers {
@@ -277,7 +277,10 @@ func raceOne(e *Enc, o *Obl, cfg *SolverCfg, base string) {
 			solverSlots <- struct{}{}
 			defer func() { <-solverSlots }()
 			t0 := time.Now()
-			out, _ := runSolver(ctx, s.args(file, cfg.TimeoutS))
+			// the clock starts when the solver gets a slot, not when the obligation is queued
+			sctx, scancel := context.WithTimeout(ctx, time.Duration(cfg.TimeoutS+5)*time.Second)
+			defer scancel()
+			out, _ := runSolver(sctx, s.args(file, cfg.TimeoutS))
 			ch <- ans{s.name, firstAnswer(out), out, time.Since(t0).Seconds()}
 		}(s)
 	}
@@ -336,8 +339,11 @@ func raceOne(e *Enc, o *Obl, cfg *SolverCfg, base string) {
 		o.Result = res
 		o.Solver = "all"
 	}
-	if want == "unsat" && (o.Result == "unknown" || o.Result == "timeout") {
+	if want == "unsat" && (o.Result == "unknown" || o.Result == "timeout") && o.Extra["pathsplit"] == "" {
 		e.pathSplit(o, cfg, file)
+	}
+	if want == "unsat" && (o.Result == "unknown" || o.Result == "timeout") {
+		e.goalSplit(o, cfg, file)
 	}
 	if cfg.AllAgree && want == "unsat" && o.Result == "unsat" {
 		// count how many agreed
@@ -389,10 +395,36 @@ func (e *Enc) relevantFacts(o *Obl) []*Fact {
 		n++
 	}
 	in := make([]bool, n)
+	// path slicing: a fact guarded by the guard of a block that cannot reach the
+	// obligation's block belongs to another path; leaving it out only weakens the
+	// hypotheses (sound) and keeps the query small
+	skip := make([]bool, n)
+	if e.blockGuard != nil {
+		gv := map[string]*Sort{}
+		o.Guard.Vars(gv)
+		ob, cnt := -1, 0
+		for v := range gv {
+			if bi, ok := e.blockGuard[v]; ok {
+				ob = bi
+				cnt++
+			}
+		}
+		if cnt == 1 {
+			anc := e.ancestors[ob]
+			for i := 0; i < n; i++ {
+				g := e.facts[i].Guard
+				if g != nil && g.IsAtom() && g.Name != "" {
+					if fb, ok := e.blockGuard[g.Name]; ok && !anc[fb] {
+						skip[i] = true
+					}
+				}
+			}
+		}
+	}
 	for changed := true; changed; {
 		changed = false
 		for i := 0; i < n; i++ {
-			if in[i] {
+			if in[i] || skip[i] {
 				continue
 			}
 			vs := e.factVars[i]
@@ -485,13 +517,17 @@ func (e *Enc) pathSplit(o *Obl, cfg *SolverCfg, file string) {
 	base := e.query(o, false)
 	total := 0.0
 	used := map[string]bool{}
+	caseT := cfg.TimeoutS
+	if caseT > 6 && !cfg.AllAgree {
+		caseT = 6
+	}
 	for i, c := range leaves {
 		q := strings.Replace(base, "(check-sat)", "(assert "+c.String()+")\n(check-sat)", 1)
 		cf := fmt.Sprintf("%s.case%d.smt2", strings.TrimSuffix(file, ".smt2"), i)
 		os.WriteFile(cf, []byte(q), 0o644)
 		// race the two deciding solvers on this case
 		t0 := time.Now()
-		ctx, cancel := context.WithTimeout(context.Background(), time.Duration(cfg.TimeoutS+3)*time.Second)
+		ctx, cancel := context.WithCancel(context.Background())
 		type cres struct{ name, res string }
 		ch := make(chan cres, 2)
 		n := 0
@@ -503,7 +539,9 @@ func (e *Enc) pathSplit(o *Obl, cfg *SolverCfg, file string) {
 			go func(sp solverSpec) {
 				solverSlots <- struct{}{}
 				defer func() { <-solverSlots }()
-				out, _ := runSolver(ctx, sp.args(cf, cfg.TimeoutS))
+				sctx, scancel := context.WithTimeout(ctx, time.Duration(caseT+3)*time.Second)
+				defer scancel()
+				out, _ := runSolver(sctx, sp.args(cf, caseT))
 				ch <- cres{sp.name, firstAnswer(out)}
 			}(sp)
 		}
@@ -539,4 +577,120 @@ func (e *Enc) pathSplit(o *Obl, cfg *SolverCfg, file string) {
 	}
 	sort.Strings(us)
 	o.Result, o.Solver, o.TimeS = "unsat", fmt.Sprintf("%s(path-split %d)", strings.Join(us, "+"), len(leaves)), total
+}
+
+
+// goalSplit: a goal  forall i. lo <= X(i) < hi ==> P(i)  that the solvers cannot decide
+// as a whole is decided for an arbitrary i (a fresh constant) in two cases X < p and
+// X >= p, where the pivot p is the length of a loop-carried slice at the loop head (the
+// natural split after an append: old elements / new elements).  Both cases must be
+// refuted by z3-new or cvc5; pivots are tried in turn.
+func (e *Enc) goalSplit(o *Obl, cfg *SolverCfg, file string) {
+	g := o.Goal
+	if g.Op != "forall" || len(g.Q) != 1 || g.Q[0].S.K != SInt || len(g.Args) != 1 {
+		return
+	}
+	body := g.Args[0]
+	if body.Op != "=>" || len(body.Args) != 2 {
+		return
+	}
+	// find  (<= lo X) in the range guard: X is the indexed position
+	var x *Term
+	var find func(t *Term)
+	find = func(t *Term) {
+		if x != nil {
+			return
+		}
+		if t.Op == "and" {
+			for _, a := range t.Args {
+				find(a)
+			}
+			return
+		}
+		if (t.Op == "<=" || t.Op == "<") && len(t.Args) == 2 && containsVar(t.Args[1], g.Q[0].Name) && !containsVar(t.Args[0], g.Q[0].Name) {
+			x = t.Args[1]
+		}
+	}
+	find(body.Args[0])
+	if x == nil {
+		return
+	}
+	var pivots []string
+	for _, n := range e.declOrder {
+		if strings.HasPrefix(n, "h_") && strings.Contains(n, ".2#") && e.decls[n].K == SInt {
+			pivots = append(pivots, n)
+		}
+	}
+	if len(pivots) > 2 {
+		pivots = pivots[len(pivots)-2:]
+	}
+	caseT := cfg.TimeoutS
+	if caseT > 6 && !cfg.AllAgree {
+		caseT = 6
+	}
+	sk := "sk!goal"
+	inst := body.Subst(map[string]*Term{g.Q[0].Name: Var(sk, IntS)})
+	xs := x.Subst(map[string]*Term{g.Q[0].Name: Var(sk, IntS)})
+	base := e.query(o, false)
+	k := strings.LastIndex(base, "(assert (not ")
+	if k < 0 {
+		return
+	}
+	head := base[:k] + "(declare-const |" + sk + "| Int)\n(assert (not " + inst.String() + "))\n"
+	for pi, pv := range pivots {
+		p := Var(pv, IntS)
+		okAll := true
+		total := 0.0
+		used := map[string]bool{}
+		for ci, c := range []*Term{Lt(xs, p), Ge(xs, p)} {
+			cf := fmt.Sprintf("%s.goal%d_%d.smt2", strings.TrimSuffix(file, ".smt2"), pi, ci)
+			os.WriteFile(cf, []byte(head+"(assert "+c.String()+")\n(check-sat)\n"), 0o644)
+			t0 := time.Now()
+			ctx, cancel := context.WithCancel(context.Background())
+			type cres struct{ name, res string }
+			ch := make(chan cres, 2)
+			n := 0
+			for _, sp := range solvers {
+				if sp.name == "z3" {
+					continue
+				}
+				n++
+				go func(sp solverSpec) {
+					solverSlots <- struct{}{}
+					defer func() { <-solverSlots }()
+					sctx, scancel := context.WithTimeout(ctx, time.Duration(caseT+3)*time.Second)
+					defer scancel()
+					out, _ := runSolver(sctx, sp.args(cf, caseT))
+					ch <- cres{sp.name, firstAnswer(out)}
+				}(sp)
+			}
+			res := "unknown"
+			for j := 0; j < n; j++ {
+				r := <-ch
+				if r.res == "unsat" {
+					res = "unsat"
+					used[r.name] = true
+					break
+				}
+			}
+			cancel()
+			total += time.Since(t0).Seconds()
+			if !cfg.KeepFiles {
+				defer os.Remove(cf)
+			}
+			if res != "unsat" {
+				okAll = false
+				break
+			}
+		}
+		if okAll {
+			var us []string
+			for k := range used {
+				us = append(us, k)
+			}
+			sort.Strings(us)
+			o.Result, o.Solver, o.TimeS = "unsat", fmt.Sprintf("%s(goal-split at %s)", strings.Join(us, "+"), pv), total
+			return
+		}
+	}
 }
